@@ -117,9 +117,10 @@ class ScoreColumnMulti(BaseEstimator):
     return it on a different, order-reversing scale (1 - x).  ThresholdOptimizer must therefore use, at fit
     *and* at predict time, exactly the method it was told to use ("auto" resolves to predict_proba)."""
 
-    def __init__(self, primary="predict", col=0):
+    def __init__(self, primary="predict", col=0, out_dtype=None):
         self.primary = primary
         self.col = col
+        self.out_dtype = out_dtype  # e.g. "uint8": hard / integer-valued scores in a narrow dtype
 
     def fit(self, X, y=None, **kwargs):
         self.fitted_ = True
@@ -133,7 +134,11 @@ class ScoreColumnMulti(BaseEstimator):
             s = X.iloc[:, self.col].to_numpy(dtype=float)
         else:
             s = np.asarray(X, dtype=float)[:, self.col]
-        return s if which == self.primary else 1.0 - s
+        if which != self.primary:
+            return 1.0 - s
+        if self.out_dtype and which != "predict_proba":
+            return s.astype(self.out_dtype)
+        return s
 
     def predict(self, X):
         return self._col(X, "predict")
